@@ -15,6 +15,22 @@ import copy
 from .core import norm
 
 
+def clone(node):
+    """Deep copy of an AST following AST fields only (the loader's `_parent` back-links are not copied)."""
+    if isinstance(node, list):
+        return [clone(x) for x in node]
+    if not isinstance(node, ast.AST):
+        return node
+    new = type(node).__new__(type(node))
+    for f in node._fields:
+        if hasattr(node, f):
+            setattr(new, f, clone(getattr(node, f)))
+    for a in getattr(node, "_attributes", ()):
+        if hasattr(node, a):
+            setattr(new, a, getattr(node, a))
+    return new
+
+
 class _Subst(ast.NodeTransformer):
     def __init__(self, env: dict, bound: set):
         self.env = env
@@ -22,12 +38,12 @@ class _Subst(ast.NodeTransformer):
 
     def visit_Name(self, node: ast.Name):
         if isinstance(node.ctx, ast.Load) and node.id in self.env and node.id not in self.bound:
-            return copy.deepcopy(self.env[node.id])
+            return clone(self.env[node.id])
         return node
 
     def _comp(self, node):
         # alpha-rename comprehension targets by position
-        node = copy.deepcopy(node)
+        node = clone(node)
         ren = {}
         k = len(self.bound)
         for g in node.generators:
@@ -58,7 +74,7 @@ class _Subst(ast.NodeTransformer):
 
 
 def resolved(expr: ast.AST, env: dict) -> ast.AST:
-    return _Subst(env, set()).visit(copy.deepcopy(expr))
+    return _Subst(env, set()).visit(clone(expr))
 
 
 def rtext(expr: ast.AST, env: dict) -> str:
